@@ -184,6 +184,18 @@ static void ofail(const std::string &key, const std::string &replay) {
     stat("oracle-fail:" + key);
     if (n[key]++ < 12) oracleFail(key, replay);
 }
+// the walk of hasMessageIntegrity() in QXmppStun.cpp (/repo commit f41aa68), which QXmppIceComponent applies before decode():
+// is there a MESSAGE-INTEGRITY attribute before any FINGERPRINT?  decode() && hasMI() is the "authenticated decode" of the model.
+static bool hasMI(const QByteArray &b) {
+    int off = 20;
+    while (off + 4 <= b.size()) {
+        quint16 t = be16(b, off), l = be16(b, off + 2);
+        if (t == A_MI) return true;
+        if (t == A_FP) return false;
+        off += 4 + 4 * ((l + 3) / 4);
+    }
+    return false;
+}
 static void vline(const std::string &s) {  // at most 400 per kind (mi / fp / hmac / crc)
     static std::map<std::string, int> n;
     if (n[s.substr(0, 3)]++ < 400) printf("V %s\n", s.c_str());
@@ -404,10 +416,16 @@ static void runMessage(Ctx &c, const GMsg &g, const QByteArray &key, bool fp, in
                 if (!acc) corr("dec " + hx(f) + " " + hxArg(key), "fail");
                 else { bool fits = tlvWalk(f); corr("dec " + hx(f) + " " + hxArg(key), std::string("ok fits=") + (fits ? "1 " : "0 ") + showMsg(fm, !fits)); }
             }
+            if (miPos >= 0 && byte >= miPos + 24 && acc) {  // theorem tamper_behind_mi_keeps_message
+                if (showMsg(fm, false) == spec || !g.wf) oraclePass()++; else ofail("C14:bitflip-behind-mi-changed-message", "flip bit " + std::to_string(bit % 8) + " of byte " + std::to_string(byte) + " of " + hx(enc) + " key=" + hxArg(key));
+            }
             if (!prot) { stat(acc ? "bitflip-unprotected-accepted" : "bitflip-unprotected-rejected"); continue; }
             if (!acc) { oraclePass()++; stat("bitflip-protected-rejected"); continue; }
             stat("bitflip-protected-ACCEPTED");
             std::string frep = "flip bit " + std::to_string(bit % 8) + " of byte " + std::to_string(byte) + " of " + hx(enc) + " key=" + hxArg(key) + " fp=" + (fp ? "1" : "0");
+            // theorem tamper_rejected_by_authenticated_decode: accepted AND MESSAGE-INTEGRITY present is impossible
+            if (miPos >= 0 && byte < miPos + 24 && hasMI(f)) { stat("bitflip-accepted-with-integrity"); ofail("C14:bitflip-accepted:authenticated", frep); continue; }
+            if (miPos >= 0 && byte < miPos + 24) stat("bitflip-accepted-but-no-integrity-attribute(authenticated decode rejects)");
             if (byte >= 20 && isLenField[size_t(byte)] && byte < (miPos >= 0 ? miPos : fpPos)) ofail("C14:bitflip-accepted", frep + " (attribute length field: the walk never reaches MESSAGE-INTEGRITY/FINGERPRINT)");
             else ofail("C14:bitflip-accepted:not-a-length-field", frep);
         }
@@ -510,6 +528,28 @@ int main(int argc, char **argv) {
         GMsg g0; g0.type = 1; g0.username = QByteArray("");
         runMessage(c, g0, QByteArray(1, char(1)), true, 1);
         runMessage(c, g0, QByteArray("secret"), true, 1);
+        // setData with 70000 bytes: the 16-bit lengths wrap, the packet is not decodable (theorem C14_defect_oversized_not_decodable)
+        for (int n : { 70000, 65532 }) {
+            corr("reset", "ok");
+            QXmppStunMessage big; big.setData(QByteArray(n, 'x'));
+            const std::string spec = showMsg(big, false);
+            QByteArray e = big.encode(QByteArray(), false);
+            corr("enc " + spec + " - 0", hx(e));
+            if (e.isEmpty()) { stat("oversized-message-refused-by-encode"); oraclePass()++; continue; }  // a refusing encode builds nothing
+            QXmppStunMessage d; bool ok = decodeLine(e, QByteArray(), false, &d);
+            if (ok && showMsg(d, false) == spec) oraclePass()++;
+            else ofail("C14:oversized-not-decodable", "setData(" + std::to_string(n) + " bytes).encode() has " + std::to_string(e.size()) + " bytes, header length field " + std::to_string(be16(e, 2)) + ", DATA length field " + std::to_string(be16(e, 22)) + "; decode = " + (ok ? "different message" : "false"));
+        }
+        { QXmppStunMessage okm; okm.setData(QByteArray(65000, 'y')); QByteArray e = okm.encode(QByteArray("k"), true); QXmppStunMessage d;
+          if (d.decode(e, QByteArray("k")) && d.data().size() == 65000) oraclePass()++; else ofail("C14:roundtrip", "DATA of 65000 bytes with key and fingerprint"); }
+        // setReservationToken with fewer than 8 bytes: resize(8) leaves the new bytes uninitialised, encode() sends them
+        {
+            QXmppStunMessage t; t.setReservationToken(QByteArray("abc"));
+            QByteArray tok = t.reservationToken(); bool clean = tok.size() == 8 && tok.startsWith("abc");
+            for (int i = 4; i < tok.size(); i++) if (tok[i] != 0) clean = false;
+            if (clean) oraclePass()++;
+            else ofail("C14:reservation-token-uninitialised", "setReservationToken(\"abc\") -> reservationToken() = " + hx(tok) + " (bytes 4..7 are whatever the heap held; valgrind: uninitialised; they are sent by encode())");
+        }
     }
 
     // ---- 1. HMAC and CRC helpers directly: every key length 0..300
